@@ -27,6 +27,8 @@ type c18Cfg struct {
 	FeeASetter  c18Wallet
 	Redeemer    c18Wallet
 	Flaw        string // "", unknown_field, wrong_type, not_json
+	Ext         string // chaincode-specific section: "" absent, "ok", "empty_addr"
+	NoSwaps     bool   // options.disable_swaps
 }
 
 func optStr(w c18Wallet) string {
@@ -41,7 +43,7 @@ func (v c18Cfg) term() string {
 	if v.HasToken {
 		tok = fmt.Sprintf("(Some (TConf %s %s %s %s))", optStr(v.Issuer), optStr(v.FeeSetter), optStr(v.FeeASetter), optStr(v.Redeemer))
 	}
-	return fmt.Sprintf("(CConf %s %s %s %s)", coqStr(v.Symbol), coqStr(v.Robot), optStr(v.Admin), tok)
+	return fmt.Sprintf("(CConf %s %s %s %s %s)", coqStr(v.Symbol), coqStr(v.Robot), optStr(v.Admin), tok, coqBool(v.NoSwaps))
 }
 
 func (v c18Cfg) json() string {
@@ -57,6 +59,9 @@ func (v c18Cfg) json() string {
 		if v.Flaw == "wrong_type" {
 			c["symbol"] = 5
 		}
+		if v.NoSwaps {
+			c["options"] = map[string]interface{}{"disable_swaps": true}
+		}
 		m["contract"] = c
 	}
 	if v.HasToken {
@@ -68,6 +73,12 @@ func (v c18Cfg) json() string {
 		}
 		m["token"] = t
 	}
+	switch v.Ext {
+	case "ok":
+		m["ext_config"] = map[string]interface{}{"@type": "type.googleapis.com/proto.Wallet", "address": "2d53vs8dwuYLhsBs45CpWwHgFQwLH1UoBN6DSQTzJeFjs5XvrB"}
+	case "empty_addr":
+		m["ext_config"] = map[string]interface{}{"@type": "type.googleapis.com/proto.Wallet"}
+	}
 	b, _ := json.Marshal(m)
 	if v.Flaw == "not_json" {
 		return string(b[:len(b)-1])
@@ -77,7 +88,7 @@ func (v c18Cfg) json() string {
 
 func genC18(c *Ctx) error {
 	c.ShardSize = 60
-	c.Notes["rule"] = "sequences of 1-5 initialisations on one chaincode: JSON configurations rendered from a structured value by field-wise mutation of a valid one (symbol / robot key / admin / issuer / setters missing, empty or ill-formatted, token section absent, unknown field, ill-typed value, truncated JSON), legacy positional argument lists for every known channel name and unknown ones (right / wrong counts, empty arguments), each sent with an admin-OU, ordinary or malformed creator. After every step: Init verdict, whether __config changed, and probes of the configuration in force (is an invocation refused for lack of configuration, the symbol in the metadata query, which robot key opens batchExecute). Non-trivial: a sequence with at least one accepted and one rejected initialisation."
+	c.Notes["rule"] = "sequences of 1-5 initialisations on one chaincode (a token, a contract on the base contract alone, or a token with a chaincode-specific ext_config section and validator of its own, which then gets a valid / absent / invalid section): JSON configurations rendered from a structured value by field-wise mutation of a valid one (symbol / robot key / admin / issuer / setters missing, empty or ill-formatted, token section absent, unknown field, ill-typed value, truncated JSON), legacy positional argument lists for every known channel name and unknown ones (right / wrong counts, empty arguments), each sent with an admin-OU, ordinary or malformed creator. After every step: Init verdict, whether __config changed, and probes of the configuration in force (is an invocation refused for lack of configuration, the symbol in the metadata query, which robot key opens batchExecute, whether a swap method is refused as disabled when called directly and as a task). Non-trivial: a sequence with at least one accepted and one rejected initialisation."
 	rng := c.Rng
 	symbols := []string{"TT", "T", "tt", "T1", "TT-1", "TT-", "1T", "T_T", "", "TT-A-B", "AB9", "A1-9Z", "TTé"}
 	w0 := NewWorld()
@@ -92,9 +103,13 @@ func genC18(c *Ctx) error {
 			chName = "tt"
 		}
 		isToken := rng.Intn(3) > 0
+		isExt := isToken && rng.Intn(3) == 0 // a token with a chaincode-specific section that has its own validator
 		var contract core.BaseContractInterface = &HToken{}
 		if !isToken {
 			contract = &HBase{}
+		}
+		if isExt {
+			contract = &HExtToken{}
 		}
 		cc, err := core.NewCC(contract)
 		if err != nil {
@@ -123,8 +138,8 @@ func genC18(c *Ctx) error {
 			var args []string
 			var argTerm string
 			var desc interface{}
-			if rng.Intn(4) == 0 {
-				// positional arguments
+			if rng.Intn(4) == 0 && !isExt {
+				// positional arguments (they cannot carry a chaincode-specific section, so not for that contract)
 				kind := map[string]int{"nft": 1, "nmmmulti": 1, "ct": 2, "vote": 2, "curusd": 3, "otf": 4}[chName]
 				want := map[int]int{0: 3, 1: 3, 2: 4, 3: 5, 4: 4}[kind]
 				cnt := want
@@ -158,6 +173,7 @@ func genC18(c *Ctx) error {
 				if rng.Intn(3) == 0 {
 					v.Symbol = []string{"TT", "AB9", "A1-9Z", "TT-1"}[rng.Intn(4)]
 				}
+				v.NoSwaps = rng.Intn(3) == 0
 				for m := rng.Intn(3); m > 0; m-- {
 					switch rng.Intn(12) {
 					case 0:
@@ -182,14 +198,21 @@ func genC18(c *Ctx) error {
 						v.Flaw = []string{"unknown_field", "wrong_type", "not_json"}[rng.Intn(3)]
 					}
 				}
+				// the chaincode-specific section: validated by the contract that declares one, carried along by the others
+				if isExt {
+					v.Ext = []string{"ok", "ok", "ok", "ok", "ok", "ok", "", "empty_addr"}[rng.Intn(8)]
+				} else if rng.Intn(6) == 0 {
+					v.Ext = []string{"ok", "empty_addr"}[rng.Intn(2)]
+				}
 				args = []string{v.json()}
-				decodes := v.Flaw == ""
+				decodes := v.Flaw == "" && (!isExt || v.Ext == "ok") // the contract's own section is part of what must decode
+				c.Count(fmt.Sprintf("json_ext_contract_%v_section_%s", isExt, v.Ext))
 				argTerm = fmt.Sprintf("(IJson %s %s %s)", coqBool(decodes), coqBool(v.HasContract), v.term())
 				if v.Flaw == "not_json" {
 					// not valid JSON: Init falls into the positional branch with one argument
 					argTerm = fmt.Sprintf("(IPos 0 %s [%s])", coqStr(chName), coqStr(args[0]))
 				}
-				desc = map[string]interface{}{"json": args[0], "flaw": v.Flaw}
+				desc = map[string]interface{}{"json": args[0], "flaw": v.Flaw, "ext_section": v.Ext}
 			}
 			before := string(ch.State["__config"])
 			res := w.Peer.Init(chName, cr.b, args...)
@@ -213,7 +236,16 @@ func genC18(c *Ctx) error {
 					}
 				}
 			}
-			probe := fmt.Sprintf("(Probe %s %s %s)", coqBool(refused), coqStr(symbol), coqStr(robotKey))
+			// the swap switch of the configuration in force, on both routes by which a method is reached
+			offDirect, offTask := false, false
+			if !refused {
+				offDirect = gateObs(w.Peer.Invoke(chName, w.Client.Creator, "swapGet", "00")) == "ONotFound"
+				out := w.ExecTasks(chName, w.Client.Creator, []*fpb.Task{{Id: w.Peer.NextTxID(), Method: "swapGet", Args: []string{"00"}}})
+				if out.Resp != nil && len(out.Resp.GetTxResponses()) == 1 {
+					offTask = taskObs(out.Resp.GetTxResponses()[0].GetError().GetError()) == "ONotFound"
+				}
+			}
+			probe := fmt.Sprintf("(Probe %s %s %s %s %s)", coqBool(refused), coqStr(symbol), coqStr(robotKey), coqBool(offDirect), coqBool(offTask))
 			steps = append(steps, fmt.Sprintf("Step %s %s %s %s %s", coqBool(cr.admin), argTerm, coqBool(res.OK()), coqBool(changed), probe))
 			jsteps = append(jsteps, map[string]interface{}{"creator": cr.name, "arg": desc, "accepted": res.OK(), "message": res.Message, "probe_symbol": symbol, "probe_refused": refused})
 			if res.OK() {
@@ -224,8 +256,8 @@ func genC18(c *Ctx) error {
 				c.Count("init_rejected")
 			}
 		}
-		c.Emit("mkCase "+coqBool(isToken)+" "+coqList(steps), map[string]interface{}{"token_contract": isToken, "steps": jsteps}, accepted > 0 && rejected > 0)
-		c.Count("contract_token_" + coqBool(isToken))
+		c.Emit("mkCase "+coqBool(isToken)+" "+coqList(steps), map[string]interface{}{"token_contract": isToken, "ext_contract": isExt, "steps": jsteps}, accepted > 0 && rejected > 0)
+		c.Count("contract_token_" + coqBool(isToken) + "_ext_" + coqBool(isExt))
 	}
 	return nil
 }
